@@ -31,8 +31,8 @@ def cli_probe(chk):
         bad = os.path.join(d, "bad.scm")
         open(bad, "w").write("(import (scheme base))\n(define x 1)\n      (car 5)\n(define never 1)\n")
         p = subprocess.run([exe, good], capture_output=True, timeout=30)
-        if p.returncode != 0 or p.stderr:
-            return True, "a file whose forms all succeed: exit status %d, stderr %r" % (p.returncode, p.stderr[:80])
+        if p.returncode != 0 or p.stderr or p.stdout:
+            return True, "a file whose forms all succeed (and display nothing): exit status %d, stdout %r, stderr %r" % (p.returncode, p.stdout[:80], p.stderr[:80])
         p = subprocess.run([exe, bad], capture_output=True, timeout=30)
         err = p.stderr.decode("utf8", "replace")
         plain = "".join(ch for ch in err if ch == "\n" or ch >= " ")
@@ -45,6 +45,13 @@ def cli_probe(chk):
         p = subprocess.run([exe, os.path.join(d, "missing.scm")], capture_output=True, timeout=30)
         if p.returncode == 0 or not p.stderr:
             return True, "a missing file: exit status %d, stderr %r" % (p.returncode, p.stderr[:80])
+        os.mkdir(os.path.join(d, "dir.scm"))
+        latin = os.path.join(d, "latin1.scm")
+        open(latin, "wb").write(b"(import (scheme base))\n(define caf\xe9 1)\n(car 5)\n")
+        for unreadable in (os.path.join(d, "dir.scm"), latin):
+            p = subprocess.run([exe, unreadable], capture_output=True, timeout=30)
+            if p.returncode == 0 or not p.stderr:
+                return True, "an unreadable file (%s): exit status %d, stderr %r" % (os.path.basename(unreadable), p.returncode, p.stderr[:80])
         return False, "the real binary: status 0 and no diagnostic on success; one diagnostic FILE:LINE:COL and a non-zero status on the first failing form; a diagnostic and a non-zero status for a missing file"
     finally:
         import shutil
@@ -64,6 +71,8 @@ def spec_main(chk):
     def elem_hook(ex_, val, ty):
         if val is err_obj or (isinstance(val, Adt) and val.ty == "Located" and val.fields and val.fields[0] is err_obj):
             return ("lit", "<message>")
+        if isinstance(val, Lazy) and val.name.startswith("value_of_the_last_form"):
+            return ("lit", "<value>")
         return None
 
     install_fmt(ex, elem_hook)
@@ -100,10 +109,20 @@ def spec_main(chk):
         p = ex_.deref(args[1])
         ex_.log("eval_file", path=p.fields[0].concrete() if isinstance(p, Adt) and p.fields and isinstance(p.fields[0], StrVal) else None)
         yield Ok(NONE)
+        yield Ok(Some(Lazy("values::Value<R>", "value_of_the_last_form")))
         ex_.log("failed", located=True)
         yield Err(Adt("Located", None, [err_obj, Some(SeqObj("loc", "u32", [Cell(line), Cell(col)], 2, 2))]))
         ex_.log("failed", located=False)
         yield Err(Adt("Located", None, [err_obj, NONE]))
+
+    @skel.stub(ex, r"^(std::io::)?_print$|^(std::io::)?_eprint$", "print! / eprint! -> the pieces are output of main itself, on that stream")
+    def printing(ex_, callee, args, rt):
+        ex_.log("stream", which="stdout" if callee.endswith("_print") else "stderr")
+        fa = args[0]
+        from .c16 import Pieces
+        # reuse the piece machinery: the formatted text counts as output of main
+        for _ in ex_.call("Formatter::write_fmt", [Opaque("Formatter", "print"), fa], "Result", 1):
+            yield UNIT
 
     @skel.stub(ex, r"StandardStream::stderr$|StandardStream::stdout$", "termcolor stream -> which one is logged")
     def stream(ex_, callee, args, rt):
@@ -241,13 +260,85 @@ def spec_eval_forms(chk, N):
                    z3.And(*post), {}, replay)
 
 
+def spec_file_stream(chk):
+    """file_char_stream: a file that cannot be opened is an error; a read error in the middle of the file never ends the program
+    text silently (the caller would evaluate a truncated program and report success)"""
+    from ..core import CharStr
+    from ..models import iter_next
+    ex = chk.executor(True)
+    ex.string_mode = "chars"
+    ex.loop_bound = 40
+    unit = "io::file_char_stream (File::open and the line reader stubbed)"
+    chk.region_ns = {}
+    replay = lambda vals: cli_probe(chk)
+
+    @skel.stub(ex, r"^(std::fs::)?File::open(::<.*>)?$", "File::open -> Ok(file) or any io error")
+    def fopen(ex_, callee, args, rt):
+        yield Ok(Opaque("File", "the_file"))
+        e = Opaque("std::io::Error", "open_error")
+        ex_.log("open_err", error=e)
+        yield Err(e)
+
+    @skel.stub(ex, r"BufReader::(<.*>::)?new$", "BufReader::new -> opaque")
+    def bufnew(ex_, callee, args, rt):
+        yield Opaque("BufReader", "reader")
+
+    def lines_next(ex_, it_):
+        k = len([e for e in ex_.events if e["kind"] == "line"])
+        yield NONE
+        if k < 2:
+            ex_.log("line", ok=True)
+            yield Some(Ok(CharStr((z3.IntVal(97 + k), z3.IntVal(98)))))
+            ex_.log("line", ok=False)
+            yield Some(Err(Opaque("std::io::Error", "read_error%d" % k)))
+
+    @skel.stub(ex, r"as (std::io::)?BufRead>::lines$", "BufRead::lines -> at most two lines, each read successfully (two characters) or failing with an io error")
+    def lines(ex_, callee, args, rt):
+        yield IterObj("custom", next=lines_next)
+
+    f = [f for k, lst in ex.fns.items() for f in lst if k.split("::")[-1] == "file_char_stream" and "{closure" not in k]
+    if len(f) != 1:
+        raise Unsupported("file_char_stream not found uniquely")
+    state = {"panicked": False}
+
+    def on_panic(info):
+        # a panic is loud (non-zero status, a message): not a silent truncation. Whether it is acceptable at all is C07's subject.
+        chk.path(unit)
+        chk.unit(unit)["panic_outcomes"] += 1
+
+    ex.panic_hook = on_panic
+    for rv in ex.run(f[0], [Ref(Cell(Opaque("Path", "the_path")))]):
+        opened = not [e for e in ex.events if e["kind"] == "open_err"]
+        if not opened:
+            chk.path(unit)
+            chk.oblige(ex, unit, "a file that cannot be opened is reported as an error", z3.BoolVal(isinstance(rv, Adt) and rv.variant == "Err"), {}, replay)
+            continue
+        if not (isinstance(rv, Adt) and rv.variant == "Ok"):
+            chk.path(unit)
+            chk.oblige(ex, unit, "an opened file gives a character stream", z3.BoolVal(False), {}, replay)
+            continue
+        stream = rv.fields[0]
+
+        def drain_all(n):
+            for o in iter_next(ex, stream):
+                if o.variant == "None" or n > 12:
+                    chk.path(unit)
+                    read_failed = [e for e in ex.events if e["kind"] == "line" and not e["ok"]]
+                    chk.oblige(ex, unit, "the character stream ends normally only if every line was read", z3.BoolVal(not read_failed), {}, replay)
+                else:
+                    drain_all(n + 1)
+        drain_all(0)
+
+
 def run(chk):
-    chk.bounds = {"main": "file argument present / absent; eval_file succeeds, fails with a located error (every line and column), fails without location", "eval": "texts of 0..3 forms, each parsing or not, each evaluating or not"}
+    chk.bounds = {"file reading": "a file that opens or not; at most two lines, each read or failing",
+                  "main": "file argument present / absent; eval_file succeeds, fails with a located error (every line and column), fails without location", "eval": "texts of 0..3 forms, each parsing or not, each evaluating or not"}
     chk.assumptions += [
         "a mechanism-level SLICE of C17: main()'s control flow and diagnostic, and the order / stop-at-first-error discipline of Interpreter::eval; what the program writes to standard output, reading the file and the evaluator itself are outside",
         "formatting is reduced to piece lists as in C16; the error's own Display is a stub (<message>); termcolor is a stub that records which stream is used",
         "counterexamples are confirmed by running the real binary on a good, a failing and a missing file",
     ]
-    chk.run_probes("command line", lambda nat_: cli_probe(chk), chk.ws.runner("dev"), 3)
+    chk.run_probes("command line", lambda nat_: cli_probe(chk), chk.ws.runner("dev"), 5)
     chk.step("main", spec_main, chk)
     chk.step("eval forms", spec_eval_forms, chk, 3)
+    chk.step("file stream", spec_file_stream, chk)
